@@ -36,6 +36,7 @@ impl Place {
     const COR_BIT: u16 = 0x4000;
     const DOR_BIT: u16 = 0x2000;
     const PHR_BIT: u16 = 0x1000;
+    const SUB_BITS: u16 = Self::LAB_BIT | Self::COR_BIT | Self::DOR_BIT | Self::PHR_BIT;
 
     const LAB_LOW: u16 = 0xc00;
     const COR_LOW: u16 = 0x300;
@@ -166,7 +167,7 @@ impl Place {
             },
         }
 
-        if matches!(self.0, Some(0)) { self.0 = None; } 
+        if matches!(self.0, Some(d) if d & Self::SUB_BITS == 0) { self.0 = None; } 
     }
 
     /// Sets the coronal subnode to the input value 
@@ -185,7 +186,7 @@ impl Place {
                 *d &= !(Self::COR_BIT | Self::COR_LOW)
             },
         }
-        if matches!(self.0, Some(0)) { self.0 = None; } 
+        if matches!(self.0, Some(d) if d & Self::SUB_BITS == 0) { self.0 = None; } 
     }
 
     /// Sets the dorsal subnode to the input value 
@@ -205,7 +206,7 @@ impl Place {
                 *d &= !(Self::DOR_BIT | Self::DOR_LOW)
             },
         }
-        if matches!(self.0, Some(0)) { self.0 = None; } 
+        if matches!(self.0, Some(d) if d & Self::SUB_BITS == 0) { self.0 = None; } 
     }
     
     /// Sets the pharyngeaal subnode to the input value 
@@ -225,6 +226,6 @@ impl Place {
                 *d &= !(Self::PHR_BIT | Self::PHR_ASD)
             },
         }
-        if matches!(self.0, Some(0)) { self.0 = None; } 
+        if matches!(self.0, Some(d) if d & Self::SUB_BITS == 0) { self.0 = None; } 
     }
 }
